@@ -81,13 +81,13 @@ SYNC = ["synchrony assumption of the protocols: honest<->honest latency <= 1 s a
    "at most t <= (n-1)/3 faulty parties (the same t is used for the reliable broadcast, as in the test-suite): the library's own simulate_faulty_behaviour switch, silence from the start, crash after k messages, links that drop or alter messages per recipient",
    "transport: SimUnicast (in-memory integer links) in seven of eight runs; in one of eight the library's own aiounicast_select over simulated descriptors ('full stack': authenticated / encrypted / chunked per run, bytes delayed, split, read and written short, select interrupted) carries both channel sets",
    "small groups (512..768-bit p, 160..200-bit q); messages to sign are distinct within a run (the channel ID of a signing run contains the message); a Pedersen-VSS secret 0 is avoided for t = 0 (observation O2)",
-   "all findings of this session are repaired (known_findings.json holds only fixed entries, which suppress nothing)"]
+   "one open finding is recorded in known_findings.json (F16: PedersenVSS::Reconstruct with n = 2t+1 and t deviating share holders - printed as KNOWN-FINDING, class reconstruct_failed_dealer_holds_no_share, nothing else is covered by it); all other entries are fixed entries, which suppress nothing"]
 P["C15"] = dict(level="exploration", design="DESIGN.md 7.3", assumptions=SYNC,
  quick=[leg("dkg","plain",2500,16,16,600), leg("dkg","asan",200,10,4,900)],
  thorough=[leg("dkg","plain",150000,16,64,600,1200), leg("dkg","asan",5000,10,16,900,600)],
  text="Each party is a task running the library's blocking protocol calls (Pedersen VSS with honest or faulty dealer incl. Reconstruct, New-DKG, Canetti et al. DKG with share refresh, DSS key generation) over the real reliable broadcast and two simulated unicast nets, with the Sync barriers the in-tree users place between phases; n=3..7, up to t faulty parties of four kinds, latencies, one slow party, clock skew. After the run the harness collects the public members of every honest instance and checks with its own GMP code: all honest calls succeeded, QUAL and y agree, g^{x_i} equals the verification key every honest party holds, every (t+1)-subset of honest shares interpolates to one x with g^x = y, an honest dealer's secret is reconstructed everywhere, a faulty dealer is rejected by all or accepted by all with consistent shares, a refresh changes shares but neither secret nor key; bounded liveness: every honest party returns.",
  note="trusted: harness interpolation/exponentiation (libgmp), SimUnicast; exclusion rule for runs outside the synchrony assumption")
-P["C16"] = dict(level="exploration", design="DESIGN.md 7.3", assumptions=SYNC + ["the library verifiers are probed with the produced signature and its altered / out-of-range copies (s+1, c+1 resp. r+1, s+q, r+q, 0, q); for the Schnorr verifier only +1 copies are asserted (it states no range condition)"],
+P["C16"] = dict(level="exploration", design="DESIGN.md 7.3", assumptions=SYNC + ["not driven: signing and refreshing with a reduced signer set (index maps idx2dkg/dkg2idx with fresh channel objects): every signature is made by the full set, of which up to t parties deviate (seeded change S-C16e is missed for this reason)", "the library verifiers are probed with the produced signature and its altered / out-of-range copies (s+1, c+1 resp. r+1, s+q, r+q, 0, q); for the Schnorr verifier only +1 copies are asserted (it states no range condition)"],
  quick=[leg("dkg","plain",400,16,8,600), leg("dkg","asan",40,10,4,900)],
  thorough=[leg("dkg","plain",40000,16,32,600,1200), leg("dkg","asan",1500,10,8,900,600)],
  text="Threshold Schnorr (New-DKG based) and threshold DSS runs between party tasks with up to t faulty signers, messages 0, 1, q-1, q and random, before and after a share refresh: whenever Sign returns true at an honest party the signature must satisfy the textbook Schnorr resp. DSA equation evaluated by harness code under the jointly generated key, all honest parties must hold the same signature, and the library's own verifier must accept it and refuse the altered and out-of-range copies.",
@@ -155,7 +155,7 @@ def main():
       "checks": man_checks,
       "not_applicable": [{"property_id": a, "reason": b} for a, b in NA] +
                         [{"property_id": p, "reason": "pending: scenario not finished yet in this session (see DESIGN.md)"} for p in pending],
-      "notes": "Genuine defects found and repaired are listed in known_findings.json (status fixed; they suppress nothing). DESIGN.md section 12 records which checks catch which seeded changes."
+      "notes": "Genuine defects found and repaired are listed in known_findings.json (status fixed; they suppress nothing); F16 is recorded as open there and in DESIGN.md section 13. DESIGN.md section 12 records which checks catch which seeded changes."
     }
     json.dump(man, open(os.path.join(ROOT, "MANIFEST.json"), "w"), indent=1)
     print("claimed:", sorted(P), "pending:", pending)
